@@ -97,6 +97,30 @@ class Temporal(nn.Module):
         return self.head(self.tc(self.pad(self.c0(x))))
 
 
+class ConcatFixed(nn.Module):
+    """channel concatenation of two layers the user excluded from the search (fixed widths 2 and 3)"""
+    def __init__(self):
+        super().__init__()
+        self.f0 = nn.Conv1d(2, 2, 1)
+        self.f1 = nn.Conv1d(2, 3, 1)
+        self.head = nn.Conv1d(5, 1, 1)
+
+    def forward(self, x):
+        return self.head(torch.cat((self.f0(x), self.f1(x)), 1))
+
+
+class ConcatTime(nn.Module):
+    """concatenation along the time axis (written as a negative index): the operands must keep the same channels"""
+    def __init__(self):
+        super().__init__()
+        self.c0 = nn.Conv1d(2, 2, 1)
+        self.c1 = nn.Conv1d(2, 2, 1)
+        self.head = nn.Conv1d(2, 1, 1)
+
+    def forward(self, x):
+        return self.head(torch.cat((self.c0(x), self.c1(x)), -1))
+
+
 class Activated(nn.Module):
     """an element-wise op between the last layer and the output: the last layer is still tied to the output"""
     def __init__(self):
@@ -116,11 +140,14 @@ NETS = {
     'concat': (Concat, (1, 2, 2), {'c0': 'free', 'c1': 'free', 'head': 'frozen'}, {'c0': None, 'c1': None, 'head': ['c0', 'c1']}),
     'depthwise2d': (Depthwise2d, (1, 1, 2, 2), {'c0': 'free', 'dw': '=c0', 'fc': 'frozen'}, {'c0': None, 'dw': ['c0'], 'fc': ('flatten', 'c0', 1)}),
     'activated': (Activated, (1, 2, 2), {'c0': 'free', 'c1': 'frozen'}, {'c0': None, 'c1': ['c0']}),
+    'concat-fixed': (ConcatFixed, (1, 2, 2), {'head': 'frozen'}, {'head': [2, 3]}),
+    'concat-time': (ConcatTime, (1, 2, 2), {'c0': 'free', 'c1': '=c0', 'head': 'frozen'}, {'c0': None, 'c1': None, 'head': ['c0']}),
     'temporal': (Temporal, (1, 1, 4), {'c0': 'free', 'tc': 'free', 'head': 'frozen'}, {'c0': None, 'tc': ['c0'], 'head': ['tc']}),
 }
 
 
 CAUSALLY_PADDED = {'temporal': ('tc',)}
+PIT_KWARGS = {'concat-fixed': {'exclude_names': ('f0', 'f1')}}
 
 
 def _symbolic_state(H, net):
@@ -157,7 +184,7 @@ def h_import(H, net, training, fold_bn):
     y0 = user(x)
     user.train(training)
     flags = [m.training for m in user.modules()]
-    model = PIT(user, input_example=torch.zeros(*shape), fold_bn=fold_bn)
+    model = PIT(user, input_example=torch.zeros(*shape), fold_bn=fold_bn, **PIT_KWARGS.get(net, {}))
     _graph_facts(H, model)
     H.ensure('import:user-model-keeps-its-training-mode', [m.training for m in user.modules()] == flags)
     H.ensure('import:wrapper-keeps-the-training-mode-it-found', all(m.training == training for m in model.modules()))
@@ -195,7 +222,7 @@ def h_search_export(H, net):
     user = cls()
     _symbolic_state(H, user)
     user.eval()
-    model = PIT(user, input_example=torch.zeros(*shape), fold_bn=True)
+    model = PIT(user, input_example=torch.zeros(*shape), fold_bn=True, **PIT_KWARGS.get(net, {}))
     layers = dict(model.seed.named_modules())
     for name, kind in maskers.items():
         if kind == 'free':
@@ -226,7 +253,7 @@ def h_search_export(H, net):
         else:
             exp = []
             for f in feed:
-                exp = exp + _alive(H, layers[f])
+                exp = exp + ([1.0] * f if isinstance(f, int) else _alive(H, layers[f]))
         if exp is not None:
             H.ensure('wiring:layer-sees-the-alive-features-of-the-tensor-that-reaches-it', H.eq(H.elements(calc.features_mask), exp))
             H.ensure('wiring:input-width-of-exported-layer-counts-them', H.eq(layers[name].in_features_opt, H.sum(exp)))
@@ -239,12 +266,13 @@ def h_search_export(H, net):
         if H.type_name(m) in ('Conv1d', 'Conv2d', 'Linear'):
             out_w = H.shape(m.weight)[0]
             H.ensure('export:no-layer-is-pruned-to-zero-width', out_w >= 1 and H.shape(m.weight)[1] >= 1)
-            H.ensure('export:sizes-are-those-summary-reports', out_w == summ[n]['out_features'] and
-                     H.shape(m.weight)[1] * (m.groups if H.type_name(m) != 'Linear' else 1) == summ[n]['in_features'])
+            if n in summ:                       # layers excluded from the search are not reported
+                H.ensure('export:sizes-are-those-summary-reports', out_w == summ[n]['out_features'] and
+                         H.shape(m.weight)[1] * (m.groups if H.type_name(m) != 'Linear' else 1) == summ[n]['in_features'])
     # C04: the discrete parameter-count cost is the parameter count of the network export() returns
     n_params = 0
     for n, m in exported.named_modules():
-        if H.type_name(m) in ('Conv1d', 'Conv2d', 'Linear'):
+        if H.type_name(m) in ('Conv1d', 'Conv2d', 'Linear') and n in summ:          # full_cost is off: only the searchable layers are charged
             n_params = n_params + m.weight.numel() + (m.bias.numel() if m.bias is not None else 0)
     H.observe('cost', cost)
     H.ensure('cost:discrete-params-cost-is-the-parameter-count-of-the-exported-network', H.eq(cost, n_params))
@@ -265,7 +293,7 @@ _FUNCS = [_P + 'pit.py::PIT.__init__', _P + 'pit.py::PIT.export', _P + 'graph.py
 HARNESSES = [
     dict(name='whole-import', fn='h_import', property=['C07', 'C08', 'C11'], functions=_FUNCS,
          quick=[dict(net=n, training=t, fold_bn=f) for n, t, f in (('chain', True, False), ('chain', False, True), ('residual', True, False), ('residual-input', False, False),
-                                                                   ('concat', True, False), ('depthwise2d', False, False), ('activated', True, False), ('temporal', True, False))],
+                                                                   ('concat', True, False), ('depthwise2d', False, False), ('activated', True, False), ('temporal', True, False), ('concat-fixed', False, False), ('concat-time', True, False))],
          thorough=[dict(net=n, training=t, fold_bn=f) for n in NETS for t in _B for f in _B], timeout=120),
     dict(name='whole-search-export', fn='h_search_export', property=['C01', 'C09', 'C08', 'C18', 'C04'], functions=_FUNCS,
          quick=[dict(net=n) for n in NETS], thorough=[dict(net=n) for n in NETS], timeout=120),
